@@ -256,6 +256,37 @@ def run(ctx):
                      "execute_plugins skips the plugins depending on %s, which try_execute_command assigns (SET SERVER ROLE TO 'primary'|'replica'|'any'): any client can switch table_access / intercept off for its session" % sorted(hinges),
                      next(iter(hinges.values())).where() if hinges else "")
     # ---------------- R4 relation names compared the way PostgreSQL resolves them
+    # the plugins see the AST that QueryRouter::parse returns and nothing else: it has to be the AST of the whole message. parse() hands back what a
+    # whole-input entry point of sqlparser produced (Parser::parse_sql, or Parser::parse_statements on a parser fed the text) - a statement loop of
+    # pgcat's own that can stop early (`BEGIN; SELECT * FROM listed_table` parsed up to the BEGIN) leaves the rest of the message unseen by table_access / intercept
+    WHOLE = re.compile(r"^sqlparser::parser::Parser(<.*>)?::(parse_sql|parse_statements)$")
+
+    def whole_message_ast(fn, depth=0):
+        """(ok, why): every Ok value `fn` returns comes from a whole-input parser entry (directly or through a pgcat helper of which the same holds)"""
+        fb = F.body(fn)
+        if fb is None:
+            return False, "%s not found" % fn
+        okv = [st["rv"]["ops"][0] for blk, i, st in fb.assigns() if st["lhs"]["l"] == 0 and st["rv"]["k"] == "agg" and st["rv"].get("variant") == "Ok" and st["rv"].get("ops")]
+        direct = [st["rv"]["op"] for blk, i, st in fb.assigns() if st["lhs"]["l"] == 0 and not st["lhs"]["p"] and st["rv"]["k"] == "use"]
+        if not okv and not direct:
+            return False, "%s: no Ok value found" % fn.split("::")[-1]
+        for op in okv + direct:
+            srcs = [o.call for o in origins(fb, op) if o.kind == "call"]
+            if not srcs:
+                return False, "%s returns an AST that does not come from a parser call" % fn.split("::")[-1]
+            for c in srcs:
+                if WHOLE.match(c.name):
+                    continue
+                if c.name.startswith("pgcat::") and depth < 2:
+                    ok_, why_ = whole_message_ast(c.name, depth + 1)
+                    if ok_:
+                        continue
+                    return False, why_
+                return False, "%s builds the AST with %s, not with a whole-input entry point of the parser (Parser::parse_sql / Parser::parse_statements): pgcat decides itself where parsing stops" % (fn.split("::")[-1], c.name.split("::")[-1])
+        return True, ""
+    wm_ok, wm_why = whole_message_ast("pgcat::query_router::QueryRouter::parse")
+    r3.check(wm_ok, "plugins-see-the-whole-message", "QueryRouter::parse returns the AST of the whole message (sqlparser's whole-input entry point)",
+             "the AST handed to the plugins need not cover the message: %s - a listed table (or an intercepted query) in the part that was not parsed gets `Allow` and is forwarded" % wm_why)
     r4 = ctx.rule("C19-R4", "table_access compares the last identifier of the relation, folded to lower case unless quoted — not the printed ObjectName", floor=3)
     ta = ctx.body(TA_RUN, r4)
     if ta:
